@@ -799,7 +799,9 @@ class World:
                     continue
                 ann = inspect.signature(fn).parameters["client"].annotation
                 is_auth_only = ann is self.pkg.client_mod.AuthenticatedClient
-                if op["security"] and not is_auth_only:
+                if op["security"] and not is_auth_only and op.get("security_inherited"):
+                    self.v("C03", "root-security-not-demanded", fname, f"{opid} has no `security` of its own and inherits the document-level security requirement, but {fname}(client: {ann}) accepts an unauthenticated client")
+                elif op["security"] and not is_auth_only:
                     self.v("C03", "security-not-demanded", fname, f"{opid} has security requirements but {fname}(client: {ann}) accepts an unauthenticated client")
                 if not op["security"] and is_auth_only:
                     self.v("C03", "security-demanded-without-requirement", fname, f"{opid} has no security requirements but {fname} demands AuthenticatedClient")
